@@ -101,8 +101,19 @@ def npAdd (a b : List Rat) : Option (List Rat) :=
     | _, [y] => some (a.map fun x => x + y)
     | _, _ => none
 
-def addArraysOld (m : Dict (List Rat)) (r : Res) : Option (Dict (List Rat)) :=
-  m.mapM fun p => (npAdd p.2 (arr r p.1)).map fun s => (p.1, s)
+def addArraysOld : Dict (List Rat) → Res → Option (Dict (List Rat))
+  | [], _ => some []
+  | p :: m, r =>
+    match npAdd p.2 (arr r p.1), addArraysOld m r with
+    | some s, some t => some ((p.1, s) :: t)
+    | _, _ => none
+
+def foldArraysOld : List Res → Dict (List Rat) → Option (Dict (List Rat))
+  | [], d => some d
+  | r :: rest, d =>
+    match addArraysOld d r with
+    | some d' => foldArraysOld rest d'
+    | none => none
 
 def mergeResultsOld (rs : List Res) : Except Err Res :=
   match rs with
@@ -112,7 +123,7 @@ def mergeResultsOld (rs : List Res) : Except Err Res :=
     if !keysOk rs then .error .keyMismatch
     else if averageOld rs then
       let n : Rat := ((rest.length + 1 : Nat) : Rat)
-      match rest.foldlM addArraysOld first.arrays with
+      match foldArraysOld rest first.arrays with
       | none => .error .broadcast
       | some arrays =>
         .ok { info := first.info
